@@ -271,7 +271,7 @@ InsertSeam ==
              ELSE /\ Ev.kind \in {"pub1", "pub2"} /\ Ev.id # 0
                   /\ Ev.id \notin NodeIds(conn[c].n)                                        \* C06: differs from every outstanding id
                   /\ outf' = Upd(outf, key, [p |-> "", q |-> IF Ev.kind = "pub1" THEN 1 ELSE 2, phase |-> "pub", due |-> FALSE,
-                                              tag |-> Ev.tag, d |-> Ev.d])
+                                              tag |-> Ev.tag, d |-> Ev.d, r |-> FALSE])
   /\ UNCHANGED <<vnow, conn, subs, msgs, logs, acked, inq2, deliv, need, owed, ret, sweeps, dead, table, clears, faults, reach>>
 
 Callback ==
@@ -325,11 +325,12 @@ DeliverPublish ==
      /\ IF Ev.q > 0 /\ key \in Dom(outf) /\ outf[key].p = Ev.p
         THEN \* retransmission of a live flow: only when its deadline passed
              /\ outf[key].phase = "pub" /\ outf[key].due /\ Ev.q = outf[key].q
+             /\ Ev.r = outf[key].r                                          \* C07: a replay stays flagged as retained when it is sent again (and a live copy unflagged)
              /\ outf' = Upd(outf, key, [outf[key] EXCEPT !.due = FALSE])
              /\ UNCHANGED <<deliv, owed>>
         ELSE /\ IF Ev.q > 0
                 THEN /\ key \in Dom(outf) /\ outf[key].p = "" /\ outf[key].q = Ev.q
-                     /\ outf' = Upd(outf, key, [outf[key] EXCEPT !.p = Ev.p])
+                     /\ outf' = Upd(outf, key, [outf[key] EXCEPT !.p = Ev.p, !.r = Ev.r])
                 ELSE UNCHANGED outf
              /\ IF Ev.r
                 THEN /\ Owed(c, Ev.p) > 0                                   \* C07: retained replay owed to this subscriber
@@ -431,7 +432,8 @@ PeerFail ==
 
 Inject ==
   /\ Ev.op = "inject"
-  /\ faults' = IF Ev.what = "log.append"
+  /\ faults' = IF Ev.what = "slow.append" THEN faults          \* a late answer is not a failure
+               ELSE IF Ev.what = "log.append"
                THEN (IF Ev.k > 0 THEN faults \cup {<<"log", Ev.n>>} ELSE faults \ {<<"log", Ev.n>>})
                ELSE (IF Ev.on THEN faults \cup {<<"rpc", Ev.from, Ev.to>>} ELSE faults \ {<<"rpc", Ev.from, Ev.to>>})
   /\ UNCHANGED <<vnow, conn, subs, msgs, logs, acked, inq2, outf, deliv, need, owed, ret, tags, sweeps, dead, table, clears, reach>>
